@@ -330,6 +330,7 @@ func (session *clientSession) runAcknowledger() {
 
 		// wait for next acknowledgement from upstream with timeout,
 		// normally it should match the chunk we just received from ackerChan
+	READ_ACK:
 		ackedChunkID, ackErr := session.conn.ReadChunkAck(time.Now().Add(defs.ForwarderBatchAckTimeout))
 		if ackErr != nil {
 			clogger.Warnf("failed to read ACK: %s", ackErr.Error())
@@ -351,7 +352,9 @@ func (session *clientSession) runAcknowledger() {
 			} else {
 				clogger.Errorf("received ACK to unknown chunk ID=%s", ackedChunkID)
 				session.metrics.OnError(nil)
-				continue
+				// keep waiting for the ACK of the pending chunk: going back to wait for the next chunk would leave it
+				// unacknowledged until the session ends, i.e. forever if there is no session rotation
+				goto READ_ACK
 			}
 		}
 
